@@ -83,34 +83,44 @@ def spellings(cls, rng, full=False):
     base_ctx = {}
     if book:
         base_ctx.update({'directory': d, 'filename': book})
-    refs = []  # (kind, ref text, extra ctx)
+    refs = []  # (kind, ref text, extra ctx, form)
     single = (c1, r1) == (c2, r2)
     whole_col = (r1, r2) == (1, MAXR)
     whole_row = (c1, c2) == (1, MAXC)
-    refs.append(('a1', _a1(c1, r1, c2, r2), {}))
+    f0 = 'cell' if single else 'range'
+    refs.append(('a1', _a1(c1, r1, c2, r2), {}, f0))
     dl = range(1, 16) if full else rng.sample(range(1, 16), 3)
     for dd in dl:
         if single and dd > 3:
             continue
-        refs.append(('dollar', _a1(c1, r1, c2, r2, dd), {}))
-    refs.append(('lower', _a1(c1, r1, c2, r2, rng.randrange(16), True), {}))
+        refs.append(('dollar', _a1(c1, r1, c2, r2, dd), {}, f0))
+    refs.append(('lower', _a1(c1, r1, c2, r2, rng.randrange(16), True), {}, f0))
     if single:
-        refs.append(('a1:a1', _a1(c1, r1, c2, r2, 0, False, True), {}))
-        refs.append(('r1c1', 'R%dC%d' % (r1, c1), {}))
-        refs.append(('r1c1', 'r%dc%d' % (r1, c1), {}))
-        refs.append(('r1c1:r1c1', 'R%dC%d:R%dC%d' % (r1, c1, r1, c1), {}))
+        refs.append(('a1:a1', _a1(c1, r1, c2, r2, 0, False, True), {}, 'cell-as-range'))
+        refs.append(('lower', _a1(c1, r1, c2, r2, rng.randrange(16), True, True), {},
+                     'cell-as-range'))
+        refs.append(('r1c1', 'R%dC%d' % (r1, c1), {}, 'cell'))
+        refs.append(('r1c1', 'r%dc%d' % (r1, c1), {}, 'cell'))
+        refs.append(('r1c1:r1c1', 'R%dC%d:R%dC%d' % (r1, c1, r1, c1), {},
+                     'cell-as-range'))
     else:
-        refs.append(('r1c1', 'R%dC%d:R%dC%d' % (r1, c1, r2, c2), {}))
+        refs.append(('r1c1', 'R%dC%d:R%dC%d' % (r1, c1, r2, c2), {}, 'range'))
+        refs.append(('r1c1', 'r%dc%d:r%dC%d' % (r1, c1, r2, c2), {}, 'range'))
     if whole_col and not whole_row:
         a, b = rr.col_name(c1), rr.col_name(c2)
-        refs.append(('whole-col', '%s:%s' % (a, b), {}))
-        refs.append(('whole-col', '$%s:$%s' % (a.lower(), b), {}))
+        refs.append(('whole-col', '%s:%s' % (a, b), {}, 'cols'))
+        refs.append(('whole-col', '$%s:$%s' % (a.lower(), b), {}, 'cols'))
+        refs.append(('whole-col', '%s:%s' % (a.lower(), b.lower()), {}, 'cols'))
+        refs.append(('whole-col', '%s:$%s' % (a, b.lower()), {}, 'cols'))
     if whole_row and not whole_col:
-        refs.append(('whole-row', '%d:%d' % (r1, r2), {}))
-        refs.append(('whole-row', '$%d:$%d' % (r1, r2), {}))
+        refs.append(('whole-row', '%d:%d' % (r1, r2), {}, 'rows'))
+        refs.append(('whole-row', '$%d:$%d' % (r1, r2), {}, 'rows'))
+        refs.append(('whole-row', '%d:$%d' % (r1, r2), {}, 'rows'))
     if whole_row and whole_col:
-        refs.append(('whole-sheet', 'A:XFD', {}))
-        refs.append(('whole-sheet', '1:1048576', {}))
+        refs.append(('whole-sheet', 'A:XFD', {}, 'sheet-cols'))
+        refs.append(('whole-sheet', '$a:xfd', {}, 'sheet-cols'))
+        refs.append(('whole-sheet', '1:1048576', {}, 'sheet-rows'))
+        refs.append(('whole-sheet', '$1:$1048576', {}, 'sheet-rows'))
     # relative forms from random host cells (offsets must be non-zero)
     for _ in range(3 if full else 1):
         cr = rng.choice([x for x in (1, 2, 5, 77, MAXR - 1, MAXR, rng.randint(1, MAXR))
@@ -119,21 +129,26 @@ def spellings(cls, rng, full=False):
                          if x not in (c1, c2)])
         host = {'cr': str(cr), 'cc': cc}
         sg = lambda v: ('+%d' % v) if v > 0 and rng.random() < 0.3 else '%d' % v
+        lc = lambda t: t.lower() if rng.random() < 0.3 else t
         if single:
-            refs.append(('relative', 'R[%s]C[%s]' % (sg(r1 - cr), sg(c1 - cc)), host))
-        refs.append(('relative', 'R[%s]C[%s]:R[%s]C[%s]' % (
-            sg(r1 - cr), sg(c1 - cc), sg(r2 - cr), sg(c2 - cc)), host))
+            refs.append(('relative', lc('R[%s]C[%s]' % (sg(r1 - cr), sg(c1 - cc))),
+                         host, 'cell'))
+        refs.append(('relative', lc('R[%s]C[%s]:R[%s]C[%s]' % (
+            sg(r1 - cr), sg(c1 - cc), sg(r2 - cr), sg(c2 - cc))), host,
+            'cell-as-range' if single else 'range'))
         if whole_row and not whole_col:
-            refs.append(('relative-row', 'R[%s]:R[%s]' % (sg(r1 - cr), sg(r2 - cr)), host))
+            refs.append(('relative-row', lc('R[%s]:R[%s]' % (sg(r1 - cr), sg(r2 - cr))),
+                         host, 'rows'))
         if whole_col and not whole_row:
-            refs.append(('relative-col', 'C[%s]:C[%s]' % (sg(c1 - cc), sg(c2 - cc)), host))
-    for kind, ref, extra in refs:
+            refs.append(('relative-col', lc('C[%s]:C[%s]' % (sg(c1 - cc), sg(c2 - cc))),
+                         host, 'cols'))
+    for kind, ref, extra, form in refs:
         relative = kind.startswith('relative')
         # (1) everything implicit: sheet and book from the context
         ctx = dict(base_ctx, **extra)
         if sheet:
             ctx['sheet'] = rng.choice((sheet.upper(), sheet))
-        yield kind + '/implicit', ref, ctx
+        yield kind + '/implicit', ref, ctx, form
         if relative or not sheet:
             continue   # relative forms take no qualifier in the grammar
         # (2) explicit sheet, book from the context
@@ -141,17 +156,17 @@ def spellings(cls, rng, full=False):
                     else [rng.choice(_sheet_prefixes(sheet, needs_q, rng))]):
             ctx = dict(base_ctx, **extra)
             ctx['sheet'] = 'OTHERSHEET'
-            yield kind + '/sheet', '%s!%s' % (pre, ref), ctx
+            yield kind + '/sheet', '%s!%s' % (pre, ref), ctx, form
         # (3) explicit book and sheet
         if book:
             dd = (d + '/') if d else ''
             q = "'%s[%s]%s'" % (dd, book, sheet.replace("'", "''"))
-            yield kind + '/book', '%s!%s' % (q, ref), dict(extra, sheet='ZZ')
+            yield kind + '/book', '%s!%s' % (q, ref), dict(extra, sheet='ZZ'), form
             q2 = "'%s[%s]%s'" % (dd, book, sheet.swapcase().replace("'", "''"))
-            yield kind + '/book-sheetcase', '%s!%s' % (q2, ref), dict(extra)
+            yield kind + '/book-sheetcase', '%s!%s' % (q2, ref), dict(extra), form
             if not needs_q:
                 yield kind + '/extlink', '[3]%s!%s' % (sheet, ref), dict(
-                    extra, external_links={'3': (d, book), '4': ('', 'zz.xlsx')})
+                    extra, external_links={'3': (d, book), '4': ('', 'zz.xlsx')}), form
 
 
 def observe(text, ctx):
@@ -185,10 +200,8 @@ class Monitor:
         edge = 'edge' if _is_edge(cls) else 'inner'
         sc = _sheet_class(cls[2])
         names = {}
-        ref_name = None
-        for kind, text, c in spellings(cls, rng, full):
-            if text is None:
-                continue
+        ref_names = {}      # form -> (name, text)
+        for kind, text, c, form in spellings(cls, rng, full):
             case = {'kind': 'class', 'cls': list(cls), 'full': full}
             obs = observe(text, c)
             ctx.case((cls, text, sorted((k, str(v)) for k, v in c.items())))
@@ -204,17 +217,27 @@ class Monitor:
                     continue
                 name = o[1]
                 if o[2] is not None and o[2] != list(cls[3:]):
-                    ctx.violation('rect-differs:%s:%s:%s' % (kind, edge, sc), {
+                    ctx.violation('rect-differs:%s:%s' % (kind, sc), {
                         'case': case, 'spelling': text, 'context': c,
                         'observed': o[2], 'accepted': [list(cls[3:])]})
-                if ref_name is None:
-                    ref_name = (name, text)
-                elif name != ref_name[0]:
-                    ctx.violation('name-differs:%s:%s:%s' % (kind, edge, sc), {
+                ref = ref_names.setdefault(form, (name, text))
+                if name != ref[0]:
+                    # same syntactic form: never explained by the edge finding
+                    ctx.violation('name-differs:%s:%s:%s' % (kind, form, sc), {
                         'case': case, 'spelling': text, 'context': c,
-                        'observed': name, 'accepted': [ref_name[0]],
-                        'reference_spelling': ref_name[1]})
+                        'observed': name, 'accepted': [ref[0]],
+                        'reference_spelling': ref[1]})
                 names.setdefault(name, text)
+        forms = sorted(ref_names)
+        for f in forms[1:]:
+            ctx.count('cross-form')
+            if ref_names[f][0] != ref_names[forms[0]][0]:
+                ctx.violation('form-differs:%s~%s:%s:%s' % (forms[0], f, edge, sc), {
+                    'case': {'kind': 'class', 'cls': list(cls), 'full': full},
+                    'spelling': ref_names[f][1], 'observed': ref_names[f][0],
+                    'accepted': [ref_names[forms[0]][0]],
+                    'reference_spelling': ref_names[forms[0]][1]})
+        ref_name = ref_names[forms[0]] if forms else None
         for name, text in names.items():
             key = tuple(cls[:1]) + (cls[1], cls[2].upper()) + tuple(cls[3:])
             prev = self.by_name.setdefault(name, (key, text))
@@ -334,8 +357,8 @@ def check_formula_inputs(classes, ctx):
     rng = ctx.rng
     P = formulas.Parser()
     for cls in classes:
-        sp = [(k, t, c) for k, t, c in spellings(cls, rng) if t is not None
-              and '/implicit' in k and not k.startswith('relative')]
+        sp = [(k, t, c) for k, t, c, _f in spellings(cls, rng)
+              if '/implicit' in k and not k.startswith('relative')]
         if len(sp) < 2:
             continue
         (k1, t1, c1), (k2, t2, c2) = rng.sample(sp, 2)
